@@ -334,6 +334,60 @@ def run_cell(rec, cell):
         sim.teardown()
 
 
+def run_dup_origin(rec, case):
+    """A request bearing TWO Origin header lines, one allowed and one not
+    (in either order; the disallowed one a textual part of the allowed one in
+    half of the cases): it bears an Origin that is not allowed, so it is
+    refused like any other - no session, no handler, no CORS grant."""
+    cfgname, srv, kind, order, shape = case['dup']
+    rec.evaluations += 1
+    rec.count('duplicate_origin_requests')
+    rec.key('dup/' + '/'.join(case['dup']))
+    vals = allowed_values(cfgname, 'http', 'srv.test', {})
+    good = vals[0]
+    bad = good[:-1] if shape == 'substring' else 'http://evil.test'
+    origins = [good, bad] if order == 'allowed-first' else [bad, good]
+    sim = scen.make_sim(srv, server_kwargs={
+        'cors_allowed_origins': cfg_value(cfgname)})
+    desc = 'TWO Origin headers %r cors_allowed_origins=%s request=%s ' \
+        'server=%s' % (origins, cfgname, kind, srv)
+    try:
+        h = sim.open_polling()
+        n0, tbl = len(sim.events), sim.table_sids()
+        hd = {'Origin': origins}
+        ws = None
+        if kind == 'open':
+            t = sim.request('GET', {'transport': 'polling', 'EIO': '4'}, hd)
+        elif kind == 'open-ws':
+            ws, t = sim.ws_request({'transport': 'websocket', 'EIO': '4'}, hd)
+        elif kind == 'poll':
+            sim.app_call('send', h.sid, 'queued')
+            sim.quiesce()
+            t = sim.poll(h, headers=hd)
+        else:
+            t = sim.post(h, '4hello', headers=hd)
+        sim.quiesce()
+        rec.count('must_refuse')
+        refused = t.done and (t.code == 400 or (
+            ws is not None and srv == 'A' and not ws.accepted and
+            ws.server_closed))
+        if not refused:
+            rec.viol('disallowed-origin-admitted-duplicate', 'status=%r '
+                     'accepted=%r: %s' % (t.status, ws.accepted if ws else
+                                          None, desc), case)
+        if len(sim.events) != n0 or sim.table_sids() != tbl:
+            rec.viol('disallowed-origin-admitted-duplicate', 'events %r / '
+                     'table changed: %s' % (
+                         [e['ev'] for e in sim.events[n0:]], desc), case)
+        acao = t.header_all('Access-Control-Allow-Origin') if t.headers \
+            else []
+        if acao:
+            rec.viol('acao-over-grant', 'Access-Control-Allow-Origin %r: %s'
+                     % (acao, desc), case)
+    finally:
+        sim.teardown()
+
+
 def plan(tier, seed):
     rng = gen.mkrng('c13', seed)
     allc = list(itertools.product(range(len(CFG)), range(2),
@@ -345,12 +399,20 @@ def plan(tier, seed):
         chosen = rng.sample(allc, 6000)
     rng.shuffle(chosen)
     n = 16
-    return [{'cells': chosen[i::n], 'all': tier == 'thorough'}
-            for i in range(n)]
+    shards = [{'cells': chosen[i::n], 'all': tier == 'thorough'}
+              for i in range(n)]
+    shards[0]['dups'] = [
+        {'dup': [cfg, srv, kind, order, shape]}
+        for cfg in ('none', 'str', 'list', 'callable') for srv in SRV
+        for kind in ('open', 'open-ws', 'poll', 'post')
+        for order in ('allowed-first', 'allowed-last')
+        for shape in ('substring', 'foreign')]
+    return shards
 
 
 def run_shard(spec):
     rec = Rec()
+    scen.run_cases(rec, spec.get('dups', []), run_dup_origin)
     scen.run_cases(rec, [tuple(c) for c in spec['cells']], run_cell)
     if spec.get('all'):
         rec.extra['exhaustive'] = True
@@ -359,5 +421,8 @@ def run_shard(spec):
 
 def replay(case):
     rec = Rec()
+    if 'dup' in case:
+        run_dup_origin(rec, case)
+        return rec.violations
     run_cell(rec, tuple(case['cell']))
     return rec.violations
